@@ -290,6 +290,9 @@ func runRealCase(e *lp.Exec, typ, mode string, seed int64, cs int) (string, [][2
 			hdr := make([]byte, 8)
 			for atomic.LoadInt64(&got) < rc.total {
 				if _, err := io.ReadFull(r, hdr); err != nil {
+					if ne, ok := err.(net.Error); ok && ne.Timeout() {
+						return // nothing arrives any more: the watchdog below reports the stall
+					}
 					streamErr.Store(fmt.Sprintf("read header after %d of %d bytes: %v", atomic.LoadInt64(&got), rc.total, err))
 					return
 				}
@@ -301,6 +304,9 @@ func runRealCase(e *lp.Exec, typ, mode string, seed int64, cs int) (string, [][2
 				next[origin]++
 				body := make([]byte, ln)
 				if _, err := io.ReadFull(r, body); err != nil {
+					if ne, ok := err.(net.Error); ok && ne.Timeout() {
+						return
+					}
 					streamErr.Store(fmt.Sprintf("read body: %v", err))
 					return
 				}
@@ -360,6 +366,11 @@ func runRealCase(e *lp.Exec, typ, mode string, seed int64, cs int) (string, [][2
 		for {
 			select {
 			case <-readerDone:
+				if v := atomic.LoadInt64(&got); v < rc.total && streamErr.Load() == nil {
+					// the peer's read timed out
+					reports = append(reports, [2]string{"c04-real-stall", fmt.Sprintf("typ=%s mode=%s open-callback-writes=%v: the peer received %d of %d accepted bytes and then nothing for 4 s", typ, mode, hasOpen, v, rc.total)})
+					verdict = "fail"
+				}
 				break wait
 			case <-time.After(20 * time.Millisecond):
 			}
